@@ -26,14 +26,14 @@ type Clause struct {
 }
 
 type SiteRule struct {
-	Sel    string // call, dyncall, go, send, recv, close, mapset, mapdel, maplookup, store, return, defer, makechan
-	Pat    string // callee / field pattern
-	Action string // assert, let, inc, assume, forbid, set
-	Var    string // let name / ghost name
-	Cl     Clause
-	Upd    *GhostUpdate
-	Fired  int
-	Owner  string
+	Sel      string // call, dyncall, go, send, recv, close, mapset, mapdel, maplookup, store, return, defer, makechan
+	Pat      string // callee / field pattern
+	Action   string // assert, let, inc, assume, forbid, set
+	Var      string // let name / ghost name
+	Cl       Clause
+	Upd      *GhostUpdate
+	Fired    int
+	Owner    string
 	Optional bool // a prohibition: the site need not exist
 	IsGlobal bool
 }
@@ -52,13 +52,13 @@ type Contract struct {
 	HasNoPanic bool
 	MayPanic   bool
 	Inline     bool
-	InitPhase  bool // guard obligations waived before the first `go` on the path
-	Pure       string // name of the spec function giving the result
+	InitPhase  bool     // guard obligations waived before the first `go` on the path
+	Pure       string   // name of the spec function giving the result
 	Havoc      []string // extern: which pointer arguments are havocked ("$1")
 	File       string
 	Line       int
 	Unsync     []string
-	EntryLocks []string // lock classes held at entry ("chanHandler.lk")
+	EntryLocks []string          // lock classes held at entry ("chanHandler.lk")
 	Ghosts     map[string]string // ghost variables local to the function: name -> sort
 	GhostInit  map[string]string
 	Updates    []*GhostUpdate
@@ -88,26 +88,26 @@ type PropertyDecl struct {
 }
 
 type SpecFile struct {
-	Contracts  map[string]*Contract
-	Externs    []*Contract // matched by suffix
-	Preds      map[string]*PredDecl
-	SpecFns    map[string]*Decl
-	Guards     []*GuardDecl
-	LockOrder  [][2]string
-	Properties map[string]*PropertyDecl
-	Globals    []*SiteRule
-	Unsync     map[string]string // field -> reason
-	Assumes    []string          // free-text assumptions echoed into evidence
-	Axioms     []Clause
-	Lemmas     []Clause
-	Statics    []StaticClause
-	FuncTypes  map[string]*Contract
-	Order      []string
-	GhostMaps  map[string]*Decl
-	Aliases    map[string]string
+	Contracts   map[string]*Contract
+	Externs     []*Contract // matched by suffix
+	Preds       map[string]*PredDecl
+	SpecFns     map[string]*Decl
+	Guards      []*GuardDecl
+	LockOrder   [][2]string
+	Properties  map[string]*PropertyDecl
+	Globals     []*SiteRule
+	Unsync      map[string]string // field -> reason
+	Assumes     []string          // free-text assumptions echoed into evidence
+	Axioms      []Clause
+	Lemmas      []Clause
+	Statics     []StaticClause
+	FuncTypes   map[string]*Contract
+	Order       []string
+	GhostMaps   map[string]*Decl
+	Aliases     map[string]string
 	SharedTypes map[string]bool
-	ChanInvs   map[string]*Clause
-	Immutable  map[string]bool
+	ChanInvs    map[string]*Clause
+	Immutable   map[string]bool
 }
 
 type PredDecl struct {
@@ -219,7 +219,7 @@ type parser struct {
 }
 
 func (p *parser) peek() tok { return p.toks[p.p] }
-func (p *parser) next() tok  { t := p.toks[p.p]; p.p++; return t }
+func (p *parser) next() tok { t := p.toks[p.p]; p.p++; return t }
 func (p *parser) accept(s string) bool {
 	if p.peek().kind == "op" && p.peek().s == s {
 		p.p++
